@@ -41,6 +41,11 @@ UNITS = {
     "C11": [
         {"name": "C11_INP", "test": "TestC11_INP", "quick": 500, "thorough": 6000, "shards": 16, "shrink": "60s"},
     ],
+    "C13": [
+        {"name": "C13_BIN", "test": "TestC13_BIN", "quick": 300, "thorough": 6000, "shards": 6, "bin": True},
+        {"name": "C13_IDENT", "test": "TestC13_IDENT", "quick": 5000, "thorough": 100000, "shards": 2},
+        {"name": "C13_EXPIRY", "test": "TestC13_EXPIRY", "quick": 0, "thorough": 2, "shards": 2, "bin": True},
+    ],
     "C14": [
         {"name": "C14_FN", "test": "TestC14_FN", "quick": 40000, "thorough": 800000, "shards": 8},
     ],
@@ -64,6 +69,8 @@ UNITS = {
 }
 
 RULES = {
+    "C13": "case = sequence of 1-9 browser actions over three cookie jars against one real instance (cookie or file store): visit /connect, login with a fault drawn from 13 fault points, cookie mutation (substitution at a position, truncation, append), cookie of an instance with other keys, fresh jar; after every action /connect is requested; "
+           "plus identity contents through Marshal/Unmarshal in generated decode orders; non-trivial = a failing callback or a cookie manipulation followed by /connect",
     "C20": "case = (1-2 realms x 1-3 fake KDCs on TCP+UDP with behaviour reply / reply-and-keep-open / partial / close / silent / refuse, request realm absent / configured / other configured / unknown, Kerberos payload 0 B - 128 KiB, malformed request kinds); "
            "non-trivial = a well-formed request for a configured realm, or a malformed one that passes the method/length checks",
     "C14": "case = (user database of 1-5 users incl. empty passwords, duplicates and names differing only in case; sequence of 1-10 operations negotiate / authenticate(session, named user, key user, key password, domain, challenge source) / replay / garbage / bad base64 over 4 sessions); "
